@@ -30,4 +30,7 @@ def run(check: Check) -> None:
     wiring.p8_defuzzify_args(check)
     wiring.p9_antecedent(check)
     wiring.p10_activation_degree_lookup(check)
+    from .common import memoisation_rule
+
+    memoisation_rule(check)
     check.exhaustive_parts.append("General.activate iteration; Antecedent.activation_degree dispatch cases; enabled guards")
